@@ -3,8 +3,8 @@ package main
 import (
 	"context"
 	"fmt"
-	"os"
 	"math/rand"
+	"os"
 	"sync"
 	"sync/atomic"
 	"time"
